@@ -12,8 +12,7 @@
 use futures::Sink;
 use selium_protocol::Frame;
 use shim_world::{any_bool, Gate, GATE0};
-use std::collections::hash_map::IterMut;
-use std::collections::HashMap;
+use selium_protocol::collections::HashMap;
 use std::pin::Pin;
 use std::task::{Context, Poll};
 
@@ -91,16 +90,21 @@ pub fn small_num(s: Option<&String>) -> u8 {
     }
 }
 
+/// The real Router answers with `anyhow::Error`; the routers only `Debug`-print it, and
+/// anyhow captures a backtrace on construction (unwinder, env lookup) - replaced by a unit type.
+#[derive(Debug)]
+pub struct RouteError;
+
 pub struct Router<K, V> {
-    entries: HashMap<K, V>, // always empty: iter_mut() exists for the shutdown loop
+    entries: Vec<(K, V)>, // always empty: iter_mut() exists for the shutdown loop
 }
 
 impl<K, V> Router<K, V> {
     pub fn new() -> Self {
-        Self { entries: HashMap::new() }
+        Self { entries: Vec::new() }
     }
-    pub fn iter_mut(&mut self) -> IterMut<'_, K, V> {
-        self.entries.iter_mut()
+    pub fn iter_mut(&mut self) -> impl Iterator<Item = (&K, &mut V)> {
+        self.entries.iter_mut().map(|(k, v)| (&*k, v))
     }
 }
 
@@ -121,7 +125,7 @@ where
     K: Unpin,
     V: Sink<Frame> + Unpin,
 {
-    type Error = anyhow::Error;
+    type Error = RouteError;
 
     fn poll_ready(self: Pin<&mut Self>, _cx: &mut Context<'_>) -> Poll<Result<(), Self::Error>> {
         let r = router();
@@ -158,7 +162,7 @@ where
         if cid >= 254 || !r.live(cid as usize) {
             // missing headers, missing / malformed / unknown routing tag (or requestor gone)
             r.rejected += 1;
-            return Err(anyhow::Error::msg("no route"));
+            return Err(RouteError);
         }
         let c = cid as usize;
         assert!(r.got[c] < ML, "harness bound on replies per requestor");
